@@ -212,7 +212,7 @@ def run_shard(spec, ctx):
             elif other != mine:
                 which = "scores" if [h[0] for h in other["hof"]] != [h[0] for h in mine["hof"]] else "circuits"
                 ctx.violation("hall_of_fame_differs_between_processes", {"config": cfg, "hashseed": hs},
-                              {"differs_in": which, "worker_scores(PYTHONHASHSEED=0)": [h[0] for h in mine["hof"]], "other_scores": [h[0] for h in other["hof"]],
+                              {"differs_in": which, "worker_scores": [h[0] for h in mine["hof"]], "other_scores": [h[0] for h in other["hof"]],
                                "PYTHONHASHSEED": hs}, key=f"nonrepro:xproc:{'hybrid' if cfg['hybrid'] else 'evolutionary'}")
 
 
